@@ -17,6 +17,19 @@ pub struct JoinAll<F: Future> {
 
 impl<F: Future> Unpin for JoinAll<F> {}
 
+impl<F: Future> Drop for JoinAll<F> {
+    fn drop(&mut self) {
+        // `output` is empty once the result has been handed out. Before that, slot `i` has been
+        // written exactly when future `i` has completed and been removed from the queue.
+        for (i, slot) in self.output.iter_mut().enumerate() {
+            if self.queue.tasks.get(i).is_none() {
+                // SAFETY: see above
+                unsafe { slot.assume_init_drop() };
+            }
+        }
+    }
+}
+
 /// Creates a future which represents a collection of the outputs of the futures
 /// given.
 ///
